@@ -373,11 +373,104 @@ fn slow_case(slow_ms: u32) -> impl Strategy<Value = SlowCase> {
     })
 }
 
+/// A chain of merges into one destination from a small pool of sources - the same source several
+/// times in a row, a source that is itself the product of earlier merges (its history starts with
+/// the destination's last id), history switched on and off - optionally continued until the
+/// history is far longer than any plausible internal bound.
+#[derive(Clone, Debug, Serialize, Deserialize)]
+pub struct ChainCase {
+    pub dest: TrackDesc,
+    pub pool: Vec<TrackDesc>,
+    /// (source index, merge the destination's clone instead of the source, history flag, class list)
+    pub steps: Vec<(usize, bool, bool, Vec<u64>)>,
+    /// number of additional merges of the pool (round robin, history on) appended to the steps
+    pub long_tail: usize,
+}
+
+pub fn check_chain(c: &ChainCase) -> CaseResult {
+    let ctl = Ctl::new();
+    let n = HN::new();
+    let (mut dest, mut mdest) = build_both(&c.dest, &ctl, &n);
+    let mut pool: Vec<(HTrack, MTrack)> = c.pool.iter().map(|d| build_both(d, &ctl, &n)).collect();
+    if pool.is_empty() {
+        return Ok(CaseOk::trivial());
+    }
+    let base_pool = pool.clone();
+    let mut repeated = false;
+    let mut last_src: Option<usize> = None;
+    let mut longest = 0usize;
+    let nsteps = c.steps.len();
+    let tail = (0..c.long_tail).map(|k| (k, false, true, vec![0u64, 1, 2]));
+    for (step, (si, own_clone, history, classes)) in c.steps.iter().cloned().chain(tail).enumerate() {
+        let si = si % pool.len();
+        let in_tail = step >= nsteps;
+        // (the long tail merges the sources as first built: one id of history each)
+        let (src, msrc) = if in_tail { base_pool[si].clone() } else if own_clone { (dest.clone(), mdest.clone()) } else { pool[si].clone() };
+        if last_src == Some(si) && history {
+            repeated = true;
+        }
+        last_src = Some(si);
+        let r = dest.merge(&src, &classes, history);
+        let (mr, _) = mdest.merge(&msrc, &classes, history);
+        ensure!(r.is_ok() == mr.is_ok(), "chain-merge-result", "step {}: merge of track {} returned {} but the model {}", step, msrc.id, if r.is_ok() { "Ok" } else { "Err" }, if mr.is_ok() { "Ok" } else { "Err" });
+        let got = dest.get_merge_history();
+        let same = got.len() == mdest.history.len() && (in_tail && step % 64 != 0 && got.last() == mdest.history.last() || *got == mdest.history);
+        ensure!(same, "chain-merge-history", "step {} (source {} with a history of {} ids starting {:?}, history flag {}, classes {:?}): the merge history has {} entries ending {:?}, expected {} entries ending {:?} (previous history followed once by the source's)", step, msrc.id, msrc.history.len(), &msrc.history[..msrc.history.len().min(4)], history, classes, got.len(), &got[got.len().saturating_sub(4)..], mdest.history.len(), &mdest.history[mdest.history.len().saturating_sub(4)..]);
+        longest = longest.max(got.len());
+        // now and then (a few times only: every such step can double the history) the destination
+        // itself becomes a source of the pool - a history that starts with the ids the destination
+        // already ends with
+        if !in_tail && step % 5 == 4 && step < 25 {
+            pool[si] = (dest.clone(), mdest.clone());
+        }
+    }
+    ensure!(*dest.get_merge_history() == mdest.history, "chain-merge-history", "after the chain the merge history differs from previous-history-followed-once-by-each-source ({} vs {} entries)", dest.get_merge_history().len(), mdest.history.len());
+    ensure!(ms_eq(&snap_track(&dest), &mdest.snap()), "chain-final-state", "after the chain the destination differs from the model: {:?} vs {:?}", snap_track(&dest), mdest.snap());
+    Ok(CaseOk::new(repeated || longest > 1024).label_if(repeated, "same_source_twice_in_a_row").label_if(longest > 1024, "history_longer_than_1024").label_if(longest > 4096, "history_longer_than_4096"))
+}
+
+fn ms_eq(a: &Snap, b: &Snap) -> bool {
+    // what the last optimise call saw depends on hash order for multi-class merges (masked, as in C09)
+    let m = |s: &Snap| {
+        let mut s = s.clone();
+        s.attrs.5 = 0;
+        s.attrs.6 = 0;
+        s.attrs.7 = 0;
+        s
+    };
+    m(a) == m(b)
+}
+
+pub fn chain_case() -> impl Strategy<Value = ChainCase> {
+    (
+        track_desc(1),
+        proptest::collection::vec((2u64..6).prop_flat_map(track_desc), 1..4),
+        proptest::collection::vec((0usize..4, proptest::bool::weighted(0.1), proptest::bool::weighted(0.8), prop_oneof![3 => Just(vec![0u64, 1, 2]), 1 => class_list()]), 1..40),
+        prop_oneof![12 => Just(0usize), 1 => 900usize..1400, 1 => 4000usize..4400],
+    )
+        .prop_map(|(mut dest, mut pool, steps, long_tail)| {
+            // failures of the callbacks are the business of `faults`: here every merge is meant to succeed
+            dest.poison = false;
+            dest.obs.retain(|o| o.1 != Some(666));
+            for p in pool.iter_mut() {
+                p.poison = false;
+                p.group = dest.group;
+                p.obs.retain(|o| o.1 != Some(666));
+                if long_tail > 0 {
+                    // long chains: keep the observation sets small (the optimise callback truncates anyway)
+                    p.obs.truncate(2);
+                }
+            }
+            ChainCase { dest, pool, steps, long_tail }
+        })
+}
+
 pub fn run(env: &Env, rep: &Report) {
     stall_watchdog(300);
     rep.set_rule("tracks with 0..3 feature classes and 0..3 observations each; operations add_observation / Track::merge / store.add (existing and missing id) / merge_external / merge_owned with class lists present in both/one/neither track and both history settings; after a fault-free run numbers the callback invocations, every position k is replayed with 'callback k fails' (exhaustive per case). Oracle: pre-state equality after failure (attributes, observations per class, metric state, merge history), zero notifications on failure / exactly one on success, success state equal to the sequential model. Non-trivial: a fault at a position > 0, or >=2 requested classes present, or history off with an absent class; distinct = distinct serialized case");
     rep.assume("harness-owned attribute/update/metric types (store_kit.rs) leave half-applied changes behind when they fail, so a missing restore is visible; metric state is observed through a follow-up optimise call on a clone; the history length seen by optimise during a merge is not compared (not pinned by the statement)");
     par_generated(rep, "faults", atom_case, env.tier.pick(20_000, 600_000), workers(), check_atom);
+    par_generated(rep, "history-chain", chain_case, env.tier.pick(3_000, 60_000), workers(), check_chain);
     // a few merges whose optimise step takes seconds (one per worker, in parallel)
     par_generated(rep, "slow-callbacks", || slow_case(2_600), workers() as u32, workers(), check_slow);
     if env.tier == Tier::Thorough {
@@ -390,6 +483,7 @@ pub fn replay(sub: &str, case: Value) -> Option<CaseResult> {
     match sub {
         "faults" => Some(replay_case(case, check_atom, sub)),
         "slow-callbacks" => Some(replay_case(case, check_slow, sub)),
+        "history-chain" => Some(replay_case(case, check_chain, sub)),
         _ => None,
     }
 }
